@@ -334,6 +334,33 @@ func (c *C03Case) Run() string {
 		if msg := derivedProbe(t, m); msg != "" {
 			return desc + ": afterwards " + msg
 		}
+		if attached && t == b.T && len(m.E) > 0 && d.Name != "unsafe.Pointer" && len(m.Shape) > 0 {
+			// the tensor is still the one that was built over the harness's storage: no transposition, lazy or
+			// physical, detaches it - a write through it shows in exactly one element of that storage
+			before := b.RootNow()
+			k := len(m.E) - 1
+			cc := coordsOf(m.Shape)[k]
+			nv := conv(d, 249)
+			if d.Name == "bool" {
+				nv = !(m.E[k].(bool))
+			} else if eqVal(nv, m.E[k]) {
+				nv = conv(d, 248)
+			}
+			var serr error
+			if pan := try(func() { serr = t.SetAt(nv, cc...) }); pan != "" || serr != nil {
+				return desc + fmt.Sprintf(": SetAt(%v) afterwards failed: %v %v", cc, pan, serr)
+			}
+			changed := 0
+			for j, v := range b.RootNow() {
+				if !bitEqVal(v, before[j]) {
+					changed++
+				}
+			}
+			_ = t.SetAt(m.E[k], cc...)
+			if changed != 1 {
+				return desc + fmt.Sprintf(": afterwards a write through the tensor changed %d elements of the storage it was built over (expected exactly 1): it no longer aliases its source", changed)
+			}
+		}
 		if attached {
 			if msg := frame(desc); msg != "" {
 				return msg
@@ -413,7 +440,7 @@ func noAlias(cp, src *tensor.Dense, srcM Arr, d DT) string {
 }
 
 var c03DTs = []DT{dtInt8, dtBool, dtInt16, dtF32, dtF64, dtC128, dtStr, dtRec24, dtArr6}
-var c03Layouts = []string{"contig", "sliced", "stepsliced", "cmraw", "cmconv"}
+var c03Layouts = []string{"contig", "sliced", "stepsliced", "cmraw", "cmconv", "leadsliced"}
 
 func genC03Shape(rt *rapid.T) []int {
 	switch rapid.IntRange(0, 7).Draw(rt, "shapeclass") {
@@ -530,8 +557,8 @@ func TestC03(t *testing.T) {
 				region := ""
 				if l.IsCM() {
 					region = "F12"
-				} else if len(l.Steps) > 0 {
-					region = "F13"
+				} else if len(l.Steps) > 0 && lk != "leadsliced" {
+					region = "F13" // (a leading-axis cut has no gaps in its storage window: it lies outside the region)
 				}
 				return &C03Case{DT: d.Name, Shape: shape, L: l, Prog: genC03Prog(rt, shape, n, region), Base: rapid.Int64Range(0, 20).Draw(rt, "base")}
 			})
